@@ -92,15 +92,16 @@ type SpecFile struct {
 	Funcs     []*specFuncDecl
 	Axioms    []*Clause
 	Lemmas    []*Clause
+	LocSets   map[string][]string
 	Ghosts    []string // "Struct.field sort"
 	GhostVars []string // "$name sort"
 }
 
-var headerRe = regexp.MustCompile(`^func\s*(\(([^)]*)\))?\s*([A-Za-z0-9_./$]+)\s*\(([^)]*)\)\s*(\(([^)]*)\))?\s*$`)
+var headerRe = regexp.MustCompile(`^func\s*(\(([^)]*)\))?\s*([A-Za-z0-9_./$:\[\]*]+)\s*\(([^)]*)\)\s*(\(([^)]*)\))?\s*$`)
 
 var clauseKw = map[string]bool{"requires": true, "ensures": true, "modifies": true, "allocates": true, "maypanic": true,
 	"trusted": true, "onpanic": true, "loop": true, "site": true, "let": true, "oldlet": true, "noinline": true}
-var topKw = map[string]bool{"func": true, "pure": true, "ufunc": true, "axiom": true, "lemma": true, "ghost": true, "package": true}
+var topKw = map[string]bool{"locset": true, "func": true, "pure": true, "ufunc": true, "axiom": true, "lemma": true, "ghost": true, "package": true}
 
 // readSpecLines collects the //@ lines of a file, joining continuation lines.
 func readSpecLines(path string) (pkg string, lines []string, where []string, err error) {
@@ -161,7 +162,7 @@ func parseSpecFile(path string) (*SpecFile, error) {
 	if err != nil {
 		return nil, err
 	}
-	sf := &SpecFile{Pkg: pkg}
+	sf := &SpecFile{Pkg: pkg, LocSets: map[string][]string{}}
 	var cur *Contract
 	for i, line := range lines {
 		w := where[i]
@@ -177,6 +178,19 @@ func parseSpecFile(path string) (*SpecFile, error) {
 		switch kw {
 		case "package":
 			sf.Pkg = rest
+		case "locset":
+			j := strings.Index(rest, "=")
+			if j < 0 {
+				return nil, fail("locset: expected name = a, b, ...")
+			}
+			var ls []string
+			for _, m := range strings.Split(rest[j+1:], ",") {
+				if m = strings.TrimSpace(m); m != "" {
+					ls = append(ls, m)
+				}
+			}
+			sf.LocSets[strings.TrimSpace(rest[:j])] = ls
+			cur = nil
 		case "func":
 			m := headerRe.FindStringSubmatch(line)
 			if m == nil {
@@ -205,7 +219,7 @@ func parseSpecFile(path string) (*SpecFile, error) {
 				c.RecvName = parts[0]
 				c.Key = "(" + qual(parts[1]) + ")." + name
 			} else {
-				if !strings.Contains(name, ".") {
+				if !strings.Contains(name, ".") && !strings.HasPrefix(name, "type:") {
 					name = sf.Pkg + "." + name
 				}
 				c.Key = name
